@@ -14,10 +14,10 @@ import (
 )
 
 type qPart struct {
-	kind   byte // 'k' key, 'f' filter, 'c' call
-	name   string
-	group  *qGroup
-	args   []qArg
+	kind  byte // 'k' key, 'f' filter, 'c' call
+	name  string
+	group *qGroup
+	args  []qArg
 }
 type qArg struct {
 	lit   string
@@ -166,8 +166,10 @@ func refChainsGroup(g *qGroup, prefix []string, out *[][]string, pathArgsInFilte
 
 // ---------- generator ----------
 
-var c20Roots = []string{"a", "b", "c", "d", "e"}
-var c20Sub = []string{"x", "y", "z", "k"}
+// keys that are string prefixes of one another (a/ab, x/xy, k/ke/key) are deliberate: a comparison of joined paths
+// instead of key lists confuses them
+var c20Roots = []string{"a", "b", "c", "d", "e", "ab", "de"}
+var c20Sub = []string{"x", "y", "z", "k", "xy", "ke", "key"}
 
 func c20Pred(r *rng, depth int, allowDollarArg bool) *qPath {
 	p := &qPath{root: '@'}
